@@ -430,25 +430,26 @@ func (k *c40) execBatch(lits []numLit, engines []host.Engine) {
 	if len(acc) == 0 {
 		return
 	}
+	// Every literal is evaluated six times from the SAME two AST nodes: three calls of a function whose body
+	// returns the literal, and three iterations of a loop whose body declares `let x: T = lit`. All six must
+	// equal the written value (a literal's evaluation must not depend on earlier evaluations of the same node).
 	var sb strings.Builder
-	sb.WriteString("access(all) fun main(): [AnyStruct] {\n")
 	for i, l := range acc {
-		fmt.Fprintf(&sb, "    let x%d: %s = %s\n", i, l.Type, l.Text)
+		fmt.Fprintf(&sb, "access(all) fun lit%d(): %s { return %s }\n", i, l.Type, l.Text)
 	}
-	sb.WriteString("    return [")
-	for i := range acc {
-		if i > 0 {
-			sb.WriteString(", ")
-		}
-		fmt.Fprintf(&sb, "x%d", i)
+	sb.WriteString("access(all) fun main(): [[AnyStruct]] {\n    let out: [[AnyStruct]] = []\n    var j = 0\n")
+	for i, l := range acc {
+		fmt.Fprintf(&sb, "    let r%d: [AnyStruct] = [lit%d(), lit%d(), lit%d()]\n", i, i, i, i)
+		fmt.Fprintf(&sb, "    j = 0\n    while j < 3 { let x: %s = %s; r%d.append(x); j = j + 1 }\n    out.append(r%d)\n", l.Type, l.Text, i, i)
 	}
-	sb.WriteString("]\n}\n")
+	sb.WriteString("    return out\n}\n")
+	places := []string{"1st call of fun(): T { return lit }", "2nd call", "3rd call", "1st loop iteration of `let x: T = lit`", "2nd iteration", "3rd iteration"}
 	for _, eng := range engines {
 		res := host.New().Script(sb.String(), nil, host.Options{Engine: eng})
 		cs := c40Case{Kind: "number", Lits: acc}
 		if res.Err != nil || res.Panic != nil {
 			if len(acc) == 1 {
-				k.rec.Violation(k.t, cs, "executing `let x: %s = %s` on %s failed: %v %v", acc[0].Type, acc[0].Text, eng, res.Err, res.Panic)
+				k.rec.Violation(k.t, cs, "executing the literal %s of type %s on %s failed: %v %v", acc[0].Text, acc[0].Type, eng, res.Err, res.Panic)
 			}
 			for _, l := range acc {
 				k.execBatch([]numLit{l}, []host.Engine{eng})
@@ -459,14 +460,36 @@ func (k *c40) execBatch(lits []numLit, engines []host.Engine) {
 		if err != nil {
 			k.rec.Violation(k.t, cs, "cannot export: %v", err)
 		}
-		vals := m["value"].([]any)
+		rows := m["value"].([]any)
+		if len(rows) != len(acc) {
+			k.rec.Violation(k.t, cs, "%d result rows for %d literals", len(rows), len(acc))
+		}
 		for i, l := range acc {
 			ty := oracle.ByName(l.Type)
 			k.rec.Case(true, "exec", l.Type, l.Text, eng.String())
+			k.rec.Evals(5)
 			k.rec.Class("executed/" + eng.String())
-			got, err := numFromJSON(vals[i], ty)
-			if err != nil || got.Cmp(raws[i]) != 0 {
-				k.rec.Violation(k.t, c40Case{Kind: "number", Lits: []numLit{l}}, "`let x: %s = %s` evaluates to %v on %s, the literal denotes raw %s", l.Type, l.Text, vals[i], eng, raws[i])
+			if ty.IsFixed() {
+				_, digits, _ := evalFixLit(l.Text, ty.Scale)
+				if digits == ty.Scale {
+					k.rec.Class("executed/fixed-at-full-scale")
+					if strings.HasPrefix(l.Text, "-") {
+						k.rec.Class("executed/fixed-at-full-scale-negative")
+					}
+				}
+			} else if (ty.Bits == 0 || ty.Bits >= 128) && raws[i].BitLen() > 64 {
+				k.rec.Class("executed/big-integer-beyond-64-bits")
+			}
+			vals := rows[i].(map[string]any)["value"].([]any)
+			if len(vals) != len(places) {
+				k.rec.Violation(k.t, c40Case{Kind: "number", Lits: []numLit{l}}, "%d evaluations returned for literal %s, want %d", len(vals), l.Text, len(places))
+			}
+			for j, v := range vals {
+				got, err := numFromJSON(v, ty)
+				if err != nil || got.Cmp(raws[i]) != 0 {
+					k.rec.Violation(k.t, c40Case{Kind: "number", Lits: []numLit{l}}, "the %s literal %s evaluates to %v in the %s on %s, it denotes raw %s (all evaluations: %v)",
+						l.Type, l.Text, v, places[j], eng, raws[i], vals)
+				}
 			}
 		}
 	}
@@ -623,7 +646,7 @@ func TestC40(t *testing.T) {
 	rec := evid.Start(t, "C40", "generated literals against an own evaluator that reads the literal *text*: integer literals for all 20 integer types (bases 2/8/10/16, upper/lower/mixed-case hex digits, underscores between digits incl. doubled, leading zeros, unary minus, values at each type's min/max ±1/±2, pool, random, far out of range, 40–300 digits) "+
 		"and fixed-point literals for the 4 fixed-point types (1–30 fraction digits: full scale, stripped, cut, excess zero / non-zero digits; integer parts around the bounds; underscores, leading zeros, minus): "+
 		"many `let x: T = lit` declarations per program are type-checked; the checker must reject exactly those whose written value is outside T's range (integer) or has more fraction digits than T's scale or is out of range (fixed-point), with a literal range/scale error; "+
-		"a sample of the accepted ones is executed on both engines and must evaluate to exactly the written value. "+
+		"a sample of the accepted ones is executed on both engines, each literal six times from the same two AST nodes (three calls of `fun(): T { return lit }` and three iterations of a loop containing `let x: T = lit`), and every evaluation must equal exactly the written value. "+
 		"String and Character literals assembled from all escapes (\\0 \\\\ \\t \\n \\r \\\" \\' \\u{1–6 hex digits, valid scalar values}), raw Unicode and ASCII: `.utf8` on both engines must equal the UTF-8 of the NFC form of the decoded code points; invalid escapes must be rejected. "+
 		"Non-trivial: non-decimal base, underscores, >= 40 characters, value within 1 of a bound (inside or outside); strings: any non-ASCII-plain piece. Distinct by (type, literal text).")
 	k := &c40{rec: rec, t: t, useKnown: evid.ReplayFile() == ""}
@@ -722,7 +745,7 @@ func TestC40(t *testing.T) {
 	}
 
 	for _, want := range []string{"integer/accepted", "integer/rejected", "fixed/accepted", "fixed/rejected", "integer/feature/binary", "integer/feature/octal", "integer/feature/hex", "integer/feature/underscores",
-		"integer/feature/leading-zeros", "fixed/feature/excess-digits", "fixed/feature/excess-zero-digits", "fixed/feature/short-fraction", "executed/interpreter", "executed/vm",
+		"integer/feature/leading-zeros", "fixed/feature/excess-digits", "fixed/feature/excess-zero-digits", "fixed/feature/short-fraction", "executed/interpreter", "executed/vm", "executed/fixed-at-full-scale", "executed/fixed-at-full-scale-negative", "executed/big-integer-beyond-64-bits",
 		"string/feature/escape-0", "string/feature/escape-u6", "string/feature/escape-u1", "string/feature/raw-unicode", "string/needs-normalisation", "character/vm", "string/invalid-escape-rejected"} {
 		if rec.ClassCount(want) == 0 {
 			rec.Inconclusive(t, "class %q never generated", want)
